@@ -13,7 +13,8 @@ RULE = ('stage in {one-time shuffle, reshuffle, local shuffle(buffer), tile(r, s
         'Hypothesis-drawn beyond), plus the self-zip / self-intersperse compositions. Oracle: multiset(output of '
         'each iterator) == multiset(input); sampled indices pairwise distinct; local shuffle: source position - '
         'output position <= buffer_size - 1. Non-trivial: >=2 iterators whose next() calls alternate at least once, '
-        'or buffer < n; distinct by (stage, n, buffer, seed, word).')
+        'or buffer < n; distinct by (stage, n, buffer, seed, word). Plus: shuffles derived from a selection while an '
+        'iteration over that selection is in flight; samples of 3 999 out of 400 000 for 40 / 400 seeds.')
 ASSUMPTIONS = [
     'examples are their own source index, so duplication / loss / displacement are read off the values',
     'known open finding K1: an iterator over a ReShuffleDataset that is overlapped by a later-started iterator on '
@@ -112,7 +113,83 @@ def run_word(ds, word, n_iters):
     return outs, victim, alternations
 
 
+def check_inflight(case):
+    """An iteration over a selection is in flight while shuffled datasets are DERIVED from that same object and
+    iterated: the in-flight iteration still yields every example of the selection once (in the selection's order),
+    and every derived shuffle is a permutation of it."""
+    import lazy_dataset
+    n, sd, j = case['n'], case['seed'], case['j']
+    base = lazy_dataset.new(list(range(n)))
+    rng = np.random.RandomState(sd)
+    pk = case['parent']
+    if pk == 'npsel':
+        sel = list(np.random.RandomState(sd + 1).permutation(n)[:max(1, n - 1)]) if n else []
+        parent = base[np.array(sel, dtype=np.int64)]
+    elif pk == 'shuffle_once':
+        parent = base.shuffle(False, rng=np.random.RandomState(sd + 2))
+        sel = list(parent)
+    elif pk == 'shard':
+        parent = base.shard(2, 1) if n >= 2 else base
+        sel = list(parent)
+    else:
+        parent = base[::-1]
+        sel = list(range(n))[::-1]
+    sel = [int(x) for x in sel]
+    it = iter(parent)
+    got = []
+    for _ in range(min(j, len(sel))):
+        got.append(next(it))
+    derived = []
+    for d in case['derive']:
+        if d == 'shuffle_once':
+            ds = parent.shuffle(False, rng=rng)
+        elif d == 'tile_shuffle':
+            np.random.seed(sd)
+            ds = parent.tile(2, shuffle=True)
+        elif d == 'reshuffle':
+            ds = parent.shuffle(True, rng=rng)
+        else:
+            ds = parent.random_choice(len(sel), replace=False, rng_state=rng)
+        out = list(ds)
+        mult = 2 if d == 'tile_shuffle' else 1
+        if sorted(out) != sorted(sel * mult):
+            raise Violation(f'not-a-permutation|derived-{d}', f'{case}\nderived {d} yielded {out}; the selection is {sel}')
+        derived.append(ds)
+    got += list(it)
+    if got != sel:
+        raise Violation('inflight-iteration-disturbed|' + pk,
+                        f'{case}\nthe iteration over the selection {sel} that was in flight while {case["derive"]} '
+                        f'were derived from it yielded {got}')
+    again = list(parent)
+    if again != sel:
+        raise Violation('parent-changed-by-derivation|' + pk, f'{case}\nthe selection {sel} now iterates as {again}')
+    for d, ds in zip(case['derive'], derived):
+        out = list(ds)
+        mult = 2 if d == 'tile_shuffle' else 1
+        if sorted(out) != sorted(sel * mult):
+            raise Violation(f'not-a-permutation|derived-{d}', f'{case}\nsecond pass over derived {d}: {out}')
+    return 1 if 0 < j < len(sel) else 0
+
+
+def check_choice_large(case):
+    """Sampling without replacement of a small sample from a long dataset, many seeds over ONE dataset object."""
+    import lazy_dataset
+    n, size = case['n'], case['size']
+    base = lazy_dataset.new(list(range(n)))
+    for sd in range(case['seed0'], case['seed0'] + case['seeds']):
+        out = list(base.random_choice(size, replace=False, rng_state=np.random.RandomState(sd)))
+        if len(out) != size or len(set(out)) != size or not (0 <= min(out) and max(out) < n):
+            dup = sorted(x for x in set(out) if out.count(x) > 1)
+            raise Violation('sample-not-distinct|choice', f'{case}\nseed {sd}: {len(out)} examples, '
+                                                          f'{len(set(out))} distinct; drawn twice: {dup[:5]}')
+    return 1
+
+
 def check(case):
+    if case['stage'] == 'inflight':
+        return check_inflight(case)
+    if case['stage'] == 'choice_large':
+        return check_choice_large(case)
     stage, n, buf, sd = case['stage'], case['n'], case.get('buffer', 1), case['seed']
     extra = case.get('extra', 1)
     word, k = case.get('word', []), case.get('iters', 1)
@@ -175,6 +252,8 @@ def check(case):
 
 
 def nontrivial(case, alternations):
+    if case['stage'] in ('inflight', 'choice_large'):
+        return bool(alternations)
     return (case.get('iters', 1) >= 2 and alternations >= 1) or \
         (case['stage'] in ('local', 'local_copy', 'local_items') and case.get('buffer', 1) < case['n'])
 
@@ -204,8 +283,13 @@ def words(n_iters, calls):
 
 @st.composite
 def st_case(draw):
-    stage = draw(st.sampled_from(STAGES))
+    stage = draw(st.sampled_from(STAGES + ['inflight', 'inflight']))
     n = draw(st.integers(0, 9))
+    if stage == 'inflight':
+        return {'stage': 'inflight', 'n': n, 'seed': draw(st.integers(0, 10000)), 'j': draw(st.integers(0, n)),
+                'parent': draw(st.sampled_from(['npsel', 'npsel', 'shuffle_once', 'shard', 'slice'])),
+                'derive': draw(st.lists(st.sampled_from(['shuffle_once', 'tile_shuffle', 'reshuffle', 'choice']),
+                                        min_size=1, max_size=3))}
     case = {'stage': stage, 'n': n, 'seed': draw(st.integers(0, 10000))}
     if stage in ('local', 'local_copy', 'local_items'):
         case['buffer'] = draw(st.integers(1, n + 1))
@@ -271,6 +355,13 @@ def run_shard(tier, idx, nshards, rec, known):
                 case = {'stage': stage, 'n': n, 'buffer': 50, 'seed': 7, 'iters': 1, 'word': []}
                 if not one(case):
                     return [out]
+    if idx == 1 % nshards:
+        # a small sample without replacement from a long dataset (sampling shortcuts only pay off - and only go
+        # wrong - there): 40 / 400 seeds over one object
+        for seed0 in range(0, 40 if tier == 'quick' else 400, 20):
+            case = {'stage': 'choice_large', 'n': 400000, 'size': 3999, 'seed0': seed0, 'seeds': 20}
+            if not one(case):
+                return [out]
     o2 = drive(lambda c: rec.case(c, nontrivial(c, check(c)), ['stage:' + c['stage'], 'random',
                                                                 'compose:' + str(c.get('compose'))], size=c['n']),
                st_case(), N_RANDOM[tier], rec, known, seed() * 1000 + idx)
